@@ -129,6 +129,12 @@ pub fn probe_whole_second(
         if t_s >= t0 {
             // The pre-1972 SOFA entries must not change any answer from 1972 on.
             let with_sofa = e.leap_seconds(false);
+            let with_sofa_b = e.leap_seconds_with(false, LatestLeapSeconds::default());
+            if with_sofa_b != want {
+                return Err(format!(
+                    "at TAI second {t_s} (>= first IERS entry) leap_seconds_with(false, built-in) = {with_sofa_b:?}, expected {want:?}"
+                ));
+            }
             if with_sofa != want {
                 return Err(format!(
                     "at TAI second {t_s} (>= first IERS entry) leap_seconds(false) = {with_sofa:?}, expected {want:?}"
@@ -530,6 +536,12 @@ pub fn conv_probe_utc(
     if e.to_tai_duration() != tai.duration || e.to_duration_in_time_scale(TimeScale::TAI) != tai.duration {
         return Err(format!(
             "UTC count {u} ns: to_tai_duration / to_duration_in_time_scale(TAI) disagree with to_time_scale(TAI)"
+        ));
+    }
+    // The two epochs denote the same instant: equality and ordering across the two scales agree.
+    if !(e == tai && tai == e) || e.cmp(&tai) != core::cmp::Ordering::Equal || e < tai || tai < e {
+        return Err(format!(
+            "UTC count {u} ns and its TAI conversion (TAI count {tai_ns} ns) do not compare as the same instant (==, cmp or < disagree)"
         ));
     }
     // Float views of the same conversion (1 us tolerance: they are views, not the subject).
